@@ -204,4 +204,14 @@ PROPS = {
                    "c16:path-type/key", "c16:path-type/string", "c16:path-type/integer", "c16:query-type/date", "c16:body-type/decimal", "c16:response-type/timestamp"],
         "assumptions": COMMON_ASSUMPTIONS,
     },
+    "C17": {
+        "shards": 16,
+        "level_text": "Random entity declarations (names of 1-3 words written UpperCamel, lowerCamel or snake; 1-5 keys in shuffled order mixing primary, tenant, foreign, plain and non-key-typed keys and shard flags; 0-4 data fields of any type; 1-4 statuses; 0-3 events with random fields; 0-2 command services, named or default, with and without base path; 0-2 summaries; events-in-get and default status filter) alone in a package and inside API-shaped bundles with other types, services and a second entity, are compiled with CompilePackage. The monitor reads the resulting FileDescriptorProtos and compares them with the plan the generator kept (names derived from its own word list, never through the compiler's case library): the six schemas and their psm annotations, State/Event field shape and flatten flags, one event option per event pointing at the nested message of that name, Keys in declaration order with primary keys marked and required, status numbering, the query service with Get/List/Events (verb, path base, primary keys in declaration order as path parameters, request fields, state-query annotations), command services, publish and summary topics with their entity names, one and the same entity name in every annotation, and no service beyond the declared ones. The same descriptors are then pushed through structure.APIFromImage and j5client.APIFromSource and the StateEntity (name, full name, state schema, primary key, events, query parts and path parameters, command services) is compared with the plan.",
+        "level_note": "Shard keys in the Get/Events path are checked for consistency with the documented mechanism (primary or shard keys, declaration order); the statement itself only fixes the primary keys.",
+        "rule": "one evaluation per bundle that compiles; non-trivial when it declares at least one entity; distinct by hash of the sources.",
+        "floors": ["c17:name-styles", "c17:solo-entity", "c17:entities-in-bundle", "c17:name-case/UpperCamel", "c17:name-case/lowerCamel", "c17:name-case/snake", "c17:name-style/multi-word", "c17:name-style/single-word",
+                   "c17:primary-keys/1", "c17:primary-keys/2", "c17:keys/1", "c17:keys/4", "c17:shard-key", "c17:events/0", "c17:events/3", "c17:commands/0", "c17:commands/2", "c17:summaries/0", "c17:summaries/2",
+                   "c17:statuses/1", "c17:statuses/4", "c17:data/none", "c17:data/some", "c17:events-in-get"],
+        "assumptions": COMMON_ASSUMPTIONS,
+    },
 }
